@@ -19,6 +19,8 @@ pub enum Ev {
 }
 
 static WEDGED: AtomicBool = AtomicBool::new(false);
+/// work (spin, microseconds) the recording callback does for each filler message of the streaming scenarios
+static FILLER_SPIN_US: std::sync::atomic::AtomicU64 = std::sync::atomic::AtomicU64::new(0);
 
 /// a message-io network (controller + processor pumped by its own thread) that records its events
 pub struct Net {
@@ -48,6 +50,12 @@ impl Net {
                         let rec = match e {
                             NetEvent::Connected(ep, ok) => Ev::Connected(ep, ok),
                             NetEvent::Accepted(ep, l) => Ev::Accepted(ep, l),
+                            NetEvent::Message(_, d) if d.len() == 1 && d[0] == 7 => {
+                                // filler of the streaming scenarios: not recorded; the application "works" a little on it
+                                let us = FILLER_SPIN_US.load(Ordering::Relaxed);
+                                if us > 0 { let t = Instant::now(); while t.elapsed() < Duration::from_micros(us) { std::hint::spin_loop(); } }
+                                return;
+                            }
                             NetEvent::Message(ep, d) => {
                                 if let Some(max) = echo { if d.len() <= max { ctl2.send(ep, d); } }
                                 if slow_ms > 0 { std::thread::sleep(Duration::from_millis(slow_ms)); }
@@ -308,6 +316,27 @@ pub fn run_framed(a: &Args) {
         if nb.shutdown() { out.violation("[C17,C01] event processing panicked"); }
     }
     framed_stalled_reader(&mut out);
+    // a backlog of tens of thousands of tiny frames piles up while the node does not poll; then silence
+    {
+        mark_scenario(&out, "net_framed: 40000 one-byte frames are queued in the socket before the node polls; then the peer stays silent");
+        let (ctl, mut processor) = network::split();
+        let (_lid, addr) = ctl.listen(t, "127.0.0.1:0").unwrap();
+        let mut c = TcpStream::connect(addr).unwrap();
+        let n = 40_000usize;
+        let wire: Vec<u8> = (0..n).flat_map(|i| [1u8, (i % 251) as u8]).collect();
+        c.write_all(&wire).unwrap();
+        std::thread::sleep(Duration::from_millis(80));
+        let mut got: Vec<u8> = Vec::with_capacity(n);
+        let end = Instant::now() + Duration::from_millis(2500);
+        while Instant::now() < end && got.len() < n {
+            processor.process_poll_event(Some(Duration::from_millis(50)), |e| if let NetEvent::Message(_, d) = e { if d.len() == 1 { got.push(d[0]); } else { got.push(255); } });
+        }
+        let expected: Vec<u8> = (0..n).map(|i| (i % 251) as u8).collect();
+        if got != expected { out.violation(&format!("[C01] {} one-byte FramedTcp messages were queued before the node polled, then the peer went silent: {} delivered within 2.5 s, in order and intact: {}", n, got.len(), got == expected[..got.len().min(n)])); }
+        out.count("framed_backlog_of_tiny_frames");
+        out.case("framed backlog 40000 tiny frames", &format!("{}", got.len()));
+        drop(c);
+    }
     server_speaks_first(t, &mut out);
     slow_consumer(t, &mut out);
     long_send_then_other_connection(t, &mut out);
@@ -467,6 +496,35 @@ pub fn framed_stalled_reader(out: &mut Out) {
     out.count("framed_stalled_reader");
     out.case("framed stalledreader 6MiB,1000,70000", &format!("{}", got == sent));
     if nb.shutdown() { out.violation("[C17,C01] event processing panicked"); }
+}
+
+/// probe: one peer streams valid tiny frames without pause; does a second, quiet connection of the
+/// same node still get its messages delivered meanwhile?
+pub fn probe_stream_starvation(out: &mut Out) {
+    for t in [Transport::FramedTcp, Transport::Tcp] {
+        let node = Net::new();
+        let (_l, addr) = node.ctl.listen(t, "127.0.0.1:0").unwrap();
+        let (ul, uaddr) = node.ctl.listen(Transport::Udp, "127.0.0.1:0").unwrap();
+        let stop = Arc::new(AtomicBool::new(false));
+        let written = Arc::new(std::sync::atomic::AtomicU64::new(0));
+        let streamer = { let (stop, written) = (stop.clone(), written.clone()); std::thread::spawn(move || { let mut c = TcpStream::connect(addr).unwrap(); let _ = c.set_write_timeout(Some(Duration::from_millis(200))); let chunk: Vec<u8> = (0..4096).flat_map(|_| [1u8, 7u8]).collect(); while !stop.load(Ordering::SeqCst) { if c.write_all(&chunk).is_ok() { written.fetch_add(chunk.len() as u64, Ordering::SeqCst); } } }) };
+        std::thread::sleep(Duration::from_millis(100));
+        let canary = UdpSocket::bind("127.0.0.1:0").unwrap();
+        let t0 = Instant::now();
+        let mut lat = vec![];
+        for i in 0..10u64 {
+            let before = node.messages_of(ul).len();
+            canary.send_to(&i.to_le_bytes(), uaddr).unwrap();
+            let s0 = Instant::now();
+            let ok = { let end = Instant::now() + Duration::from_millis(1500); loop { if node.messages_of(ul).len() > before { break true; } if Instant::now() > end { break false; } std::thread::sleep(Duration::from_millis(1)); } };
+            lat.push(if ok { s0.elapsed().as_millis() as i64 } else { -1 });
+            std::thread::sleep(Duration::from_millis(50));
+        }
+        stop.store(true, Ordering::SeqCst);
+        let _ = streamer.join();
+        out.violation(&format!("PROBE {:?}: streamed {} MiB in {:?}; canary datagram latencies (ms, -1 = not within 1.5 s): {:?}; events recorded {}", t, written.load(Ordering::SeqCst) >> 20, t0.elapsed(), lat, node.snapshot().len()));
+        node.shutdown();
+    }
 }
 
 /// WebSocket flavour of "the peer speaks first": a stock server sends a message right after its
@@ -827,6 +885,72 @@ pub fn run_udp(a: &Args) {
             if node.shutdown() { out.violation("[C17,C12] event processing panicked"); }
         }
     }
+    // rarely used listener configurations: broadcast-filtered listener, dual-stack wildcard, multicast group
+    {
+        use message_io::network::TransportListen;
+        use message_io::adapters::udp::UdpListenConfig;
+        // (i) a listener that filters its input by destination address: a stray datagram (to 127.0.0.2) queued
+        //     IN FRONT of a valid one (to 127.0.0.1) while the node does not poll; then silence
+        mark_scenario(&out, "net_udp: listener with_receive_broadcasts; a datagram to another local address queued in front of a valid one; then silence");
+        let (ctl, mut processor) = network::split();
+        match ctl.listen_with(TransportListen::Udp(UdpListenConfig::default().with_receive_broadcasts()), "127.0.0.1:0") {
+            Ok((_lid, addr)) => {
+                let peer = UdpSocket::bind("127.0.0.1:0").unwrap();
+                let stray_to = SocketAddr::from(([127, 0, 0, 2], addr.port()));
+                let _ = peer.send_to(b"stray", stray_to);
+                peer.send_to(b"first", addr).unwrap();
+                let _ = peer.send_to(b"stray", stray_to);
+                peer.send_to(b"second", addr).unwrap();
+                std::thread::sleep(Duration::from_millis(60));
+                let mut got: Vec<Vec<u8>> = vec![];
+                let end = Instant::now() + Duration::from_millis(1000);
+                while Instant::now() < end && got.len() < 2 { processor.process_poll_event(Some(Duration::from_millis(30)), |e| if let NetEvent::Message(_, d) = e { got.push(d.to_vec()); }); }
+                if got != vec![b"first".to_vec(), b"second".to_vec()] { out.violation(&format!("[C12] Udp listener with_receive_broadcasts on {}: 'first' and 'second' were sent to it with datagrams for another local address in between, all queued before the node polled, then silence: delivered {:?}", addr, got.iter().map(|d| String::from_utf8_lossy(d).to_string()).collect::<Vec<_>>())); }
+                out.count("udp_filtered_listener_with_strays");
+            }
+            Err(_) => out.count("udp_filtered_listener_unavailable"),
+        }
+        // (ii) a wildcard IPv6 listener is dual-stack: an IPv4 sender is served and answered
+        mark_scenario(&out, "net_udp: listener on [::]:0 with an IPv4 sender");
+        let na = Net::new();
+        if let Ok((lid6, a6)) = na.ctl.listen(t, "[::]:0") {
+            let s4 = UdpSocket::bind("127.0.0.1:0").unwrap();
+            s4.set_read_timeout(Some(Duration::from_millis(1500))).unwrap();
+            if s4.send_to(b"from ipv4", SocketAddr::from(([127, 0, 0, 1], a6.port()))).is_ok() {
+                let ok = na.wait(1500, |ev| ev.iter().any(|e| matches!(e, Ev::Message(_, d) if d == b"from ipv4")));
+                let rep = na.snapshot().into_iter().find_map(|e| match e { Ev::Message(ep, d) if d == b"from ipv4" => Some(ep), _ => None });
+                let mut back = None;
+                if let Some(ep) = rep { if ep.resource_id() == lid6 { na.ctl.send(ep, b"to ipv4"); let mut b = [0u8; 32]; back = s4.recv_from(&mut b).ok().map(|(n, _)| b[..n].to_vec()); } }
+                if !ok || back.as_deref() != Some(&b"to ipv4"[..]) { out.violation(&format!("[C12] Udp listener on [::]:{} (dual stack): a datagram from the IPv4 sender {} delivered: {}, the answer through the reported endpoint reached it: {}", a6.port(), s4.local_addr().unwrap(), ok, back.is_some())); }
+                out.count("udp_dual_stack_listener_ipv4_sender");
+            }
+        } else { out.count("udp_ipv6_wildcard_unavailable"); }
+        if na.shutdown() { out.violation("[C17,C12] event processing panicked"); }
+        // (iii) a multicast listener sends to its own group through from_listener: another member on this host gets it
+        mark_scenario(&out, "net_udp: multicast listener sends to the group through Endpoint::from_listener; a second member on the same host");
+        let nm = Net::new();
+        let group: SocketAddr = "239.255.0.77:0".parse().unwrap();
+        let port = { let p = UdpSocket::bind("0.0.0.0:0").unwrap(); p.local_addr().unwrap().port() };
+        let gaddr = SocketAddr::new(group.ip(), port);
+        match nm.ctl.listen(t, gaddr) {
+            Ok((mlid, _)) => {
+                let member = socket2::Socket::new(socket2::Domain::IPV4, socket2::Type::DGRAM, Some(socket2::Protocol::UDP)).unwrap();
+                let _ = member.set_reuse_address(true); let _ = member.set_reuse_port(true);
+                let joined = member.bind(&SocketAddr::from(([0, 0, 0, 0], port)).into()).is_ok() && member.join_multicast_v4(&"239.255.0.77".parse().unwrap(), &std::net::Ipv4Addr::UNSPECIFIED).is_ok();
+                if joined {
+                    let member: UdpSocket = member.into();
+                    member.set_read_timeout(Some(Duration::from_millis(1500))).unwrap();
+                    let st = nm.ctl.send(Endpoint::from_listener(mlid, gaddr), b"announcement");
+                    let mut b = [0u8; 64];
+                    let got = member.recv_from(&mut b).ok().map(|(n, _)| b[..n].to_vec());
+                    if st != SendStatus::Sent || got.as_deref() != Some(&b"announcement"[..]) { out.violation(&format!("[C12] Udp multicast listener on {}: send to the group through Endpoint::from_listener answered {:?}; another member of the group on this host received it: {}", gaddr, st, got.is_some())); }
+                    out.count("udp_multicast_from_listener");
+                } else { out.count("udp_multicast_member_unavailable"); }
+            }
+            Err(_) => out.count("udp_multicast_unavailable"),
+        }
+        if nm.shutdown() { out.violation("[C17,C12] event processing panicked"); }
+    }
     // the peer of a connected socket speaks first: its datagram is already queued when the node first
     // looks at the new socket (connect() called from inside a callback, a late poll thread)
     for late_ms in [0u64, 30] {
@@ -1140,6 +1264,7 @@ pub fn run_conc(a: &Args) {
         (Transport::Ws, 4, if a.thorough { 40 } else { 8 }, vec![300_000], true),
         (Transport::Ws, 3, if a.thorough { 12 } else { 4 }, vec![(1 << 20) + 5, 3 << 20, 1 << 20], true), // above any plausible fragment size
         (Transport::FramedTcp, 3, if a.thorough { 12 } else { 4 }, vec![(1 << 20) + 5, 3 << 20], true),
+        (Transport::Ws, 2, if a.thorough { 4 } else { 2 }, vec![20 << 20], true), // two valid messages in flight exceed any single-message buffer
         (Transport::Udp, 4, if a.thorough { 2000 } else { 300 }, vec![8, 100, 1200], false),
     ] {
         let Some((na, nb, lid, ep_a, ep_b)) = connect_pair(t) else { out.violation("[C10,C03] could not establish a connection"); continue };
@@ -1186,6 +1311,34 @@ pub fn run_conc(a: &Args) {
         out.count(&format!("conc_{:?}", t));
         out.add("conc_messages_sent", total as u64);
         out.case(&format!("conc {:?} threads {} per {} sizes {:?}", t, nthreads, per, sizes), &format!("{} {} {} {}", got.len(), corrupt, dup, order));
+        if na.shutdown() | nb.shutdown() { out.violation("[C17,C10] event processing panicked"); }
+    }
+    // sends on a live, ready endpoint while OTHER connections of the same transport come and go
+    for t in [Transport::Tcp, Transport::FramedTcp, Transport::Udp] {
+        mark_scenario(&out, &format!("net_conc {:?}: two threads send on one endpoint while a third thread connects and removes other endpoints of the same transport", t));
+        let Some((na, nb, lid, ep_a, ep_b)) = connect_pair(t) else { out.violation("[C10,C03] could not establish a connection"); continue };
+        let rid = if t.is_connection_oriented() { ep_a.resource_id() } else { lid };
+        let stop = Arc::new(AtomicBool::new(false));
+        let churn = { let (ctl, stop) = (nb.ctl.clone(), stop.clone()); let target = { let l = TcpListener::bind("127.0.0.1:0").unwrap(); l }; let taddr = target.local_addr().unwrap();
+            std::thread::spawn(move || { let _keep = target; let mut n = 0u64; while !stop.load(Ordering::SeqCst) { if let Ok((ep, _)) = ctl.connect(if t == Transport::Udp { Transport::Udp } else { t }, taddr) { ctl.remove(ep.resource_id()); n += 1; } } n }) };
+        let per = if a.thorough { 20_000u64 } else { 3_000 };
+        let senders: Vec<_> = (0..2u64).map(|th| { let ctl = nb.ctl.clone(); std::thread::spawn(move || { let mut bad = vec![]; for sq in 0..per { let st = ctl.send(ep_b, &tagged(th, sq, 40)); if st != SendStatus::Sent && bad.len() < 3 { bad.push((sq, st)); } if sq % 64 == 0 { std::thread::sleep(Duration::from_micros(100)); } } bad }) }).collect();
+        let bad: Vec<(u64, SendStatus)> = senders.into_iter().flat_map(|h| h.join().unwrap()).collect();
+        stop.store(true, Ordering::SeqCst);
+        let cycles = churn.join().unwrap();
+        let total = 2 * per as usize;
+        // (Tcp is a byte stream: count bytes; Udp may drop under load: statuses only)
+        let ok = match t {
+            Transport::Tcp => na.wait(5000, |_| na.messages_of(rid).iter().map(|d| d.len()).sum::<usize>() >= (total - bad.len()) * 72),
+            Transport::Udp => true,
+            _ => na.wait(5000, |_| na.messages_of(rid).len() >= total - bad.len()),
+        };
+        if !bad.is_empty() || !ok {
+            out.violation(&format!("[C10,C13] {:?}: two threads sent {} messages on one live endpoint while another thread did {} connect()/remove() cycles on other endpoints of the same transport: send() answered {:?} (first cases), all delivered: {}", t, total, cycles, bad, ok));
+        }
+        out.count("conc_sends_during_connection_churn");
+        out.add("churn_cycles", cycles);
+        out.case(&format!("conc churn {:?}", t), &format!("{}", bad.len()));
         if na.shutdown() | nb.shutdown() { out.violation("[C17,C10] event processing panicked"); }
     }
     // (deep search / thorough) a slow but live consumer: sends that queue for many seconds behind each other
@@ -1271,6 +1424,33 @@ pub fn run_limits(a: &Args) {
         out.case(&format!("limits udp connected={}", connected), &format!("{}", got.len()));
         if na.shutdown() | nb.shutdown() { out.violation("[C17,C13] event processing panicked"); }
     }
+    // ---- Udp over IPv6 (::1, source address given): the same declared limit ----
+    {
+        use message_io::network::TransportConnect;
+        use message_io::adapters::udp::UdpConnectConfig;
+        mark_scenario(&out, "net_limits Udp over ::1: payloads just below the declared maximum");
+        let na = Net::new();
+        let nb = Net::new();
+        if let Ok((lid, addr)) = na.ctl.listen(Transport::Udp, "[::1]:0") {
+            let cfg = UdpConnectConfig::default().with_source_address("[::1]:0".parse().unwrap());
+            if let Ok((ep, _)) = nb.ctl.connect_with(TransportConnect::Udp(cfg), addr) {
+                nb.wait(3000, |ev| ev.iter().any(|e| matches!(e, Ev::Connected(e2, true) if *e2 == ep)));
+                let max = Transport::Udp.max_message_size();
+                let mut n = 0;
+                for len in [max - 40, max - 20, max - 19, max - 1, max] {
+                    let st = nb.ctl.send(ep, &payload(len as u64 + 1, len));
+                    n += 1;
+                    let ok = na.wait(1500, |_| na.messages_of(lid).len() >= n);
+                    if st != SendStatus::Sent || !ok || na.messages_of(lid).last().map(|d| d.len()) != Some(len) { out.violation(&format!("[C13,C12] Udp over ::1: send of {} bytes (max_message_size {}) answered {:?}, delivered intact: {}", len, max, st, ok)); n = na.messages_of(lid).len(); }
+                    out.count("limits_udp_ipv6_sizes");
+                }
+                let st = nb.ctl.send(ep, &payload(3, max + 1));
+                if st != SendStatus::MaxPacketSizeExceeded { out.violation(&format!("[C13] Udp over ::1: send of {} bytes answered {:?}", max + 1, st)); }
+            } else { out.count("limits_udp_ipv6_connect_unavailable"); }
+        } else { out.count("limits_udp_ipv6_unavailable"); }
+        out.case("limits udp ipv6", "ok");
+        if na.shutdown() | nb.shutdown() { out.violation("[C17,C13] event processing panicked"); }
+    }
     // ---- Ws: the declared limit ----
     {
         let Some((na, nb, _lid, ep_a, ep_b)) = connect_pair(Transport::Ws) else { out.violation("[C13,C03] no Ws connection"); out.finish(); return };
@@ -1295,7 +1475,7 @@ pub fn run_limits(a: &Args) {
             out.count("limits_ws_sizes_from_acceptor");
         }
         let got = na.messages_of(ep_a.resource_id());
-        if got != expected { out.violation(&format!("[C13] Ws: {} of {} accepted messages arrived intact (the connection must survive a rejected payload and carry every payload up to max_message_size)", got.iter().zip(expected.iter()).filter(|(x, y)| x == y).count(), expected.len())); }
+        if got != expected { out.violation(&format!("[C13,C01] Ws: {} of {} accepted messages arrived intact (the connection must survive a rejected payload and carry every payload up to max_message_size)", got.iter().zip(expected.iter()).filter(|(x, y)| x == y).count(), expected.len())); }
         if na.snapshot().iter().any(|e| matches!(e, Ev::Disconnected(_))) || nb.snapshot().iter().any(|e| matches!(e, Ev::Disconnected(_))) { out.violation("[C13] the Ws connection was dropped by a payload around the size limit"); }
         out.case("limits ws", &format!("{}", got == expected));
         if na.shutdown() | nb.shutdown() { out.violation("[C17,C13] event processing panicked"); }
@@ -1530,6 +1710,8 @@ pub fn run_life(a: &Args) {
                         vec![0x82, 0x03, b'a', b'b', b'c'],                            // unmasked frame from a client
                         vec![0x82, 0xFE, 0x01],                                        // truncated extended length, then close
                         vec![0x01, 0x83, 1, 2, 3, 4, 9, 9, 9, 0x82, 0x81, 1, 2, 3, 4, 7], // a new data frame inside a fragmented message
+                        vec![0x88, 0x80, 1, 2, 3, 4],                                  // a well-formed Close frame, as any standard client sends
+                        vec![0x88, 0x82, 1, 2, 3, 4, 0x03 ^ 1, 0xe8 ^ 2],              // Close with status 1000
                     ];
                     for (fi, f) in frames.iter().enumerate() {
                         if let Ok(stream) = TcpStream::connect(addr) {
@@ -1586,12 +1768,35 @@ pub fn run_life(a: &Args) {
             while Instant::now() < end && (accepted < clients.len() || greeted < clients.len()) {
                 processor.process_poll_event(Some(Duration::from_millis(30)), |e| match e { NetEvent::Accepted(_, l) if l == lid => accepted += 1, NetEvent::Message(_, d) if d.len() == 5 => greeted += 1, _ => {} });
             }
-            if accepted != clients.len() || greeted != clients.len() { out.violation(&format!("[C03,C01] {:?}: {} clients connected and greeted before the listener was polled, then nobody else connected: {} Accepted events, {} greetings delivered", t, clients.len(), accepted, greeted)); }
+            if accepted != clients.len() || greeted != clients.len() { out.violation(&format!("[C03,C01,C17] {:?}: {} clients connected and greeted before the listener was polled, then nobody else connected: {} Accepted events, {} greetings delivered", t, clients.len(), accepted, greeted)); }
             out.count("life_accept_backlog");
             out.case(&format!("life backlog {:?} rep {}", t, rep), &format!("{} {}", accepted, greeted));
             drop(clients);
             ctl.remove(lid);
             for _ in 0..20 { processor.process_poll_event(Some(Duration::from_millis(5)), |_| ()); }
+        }
+        // 5b'. connect() from one thread while another thread polls the processor without pause: every
+        //      connect gets its Connected (the registration and the first poll event cannot miss each other)
+        {
+            mark_scenario(&out, "net_life Udp: 400 connect() calls from one thread while another thread polls with a zero timeout");
+            let (ctl, mut processor) = network::split();
+            let ctl = Arc::new(ctl);
+            let peer = UdpSocket::bind("127.0.0.1:0").unwrap();
+            let connected: Arc<Mutex<Vec<Endpoint>>> = Arc::new(Mutex::new(vec![]));
+            let stop = Arc::new(AtomicBool::new(false));
+            let pump = { let (connected, stop) = (connected.clone(), stop.clone()); std::thread::spawn(move || { while !stop.load(Ordering::SeqCst) { processor.process_poll_event(Some(Duration::ZERO), |e| if let NetEvent::Connected(ep, true) = e { connected.lock().unwrap().push(ep); }); } }) };
+            let eps: Vec<Endpoint> = (0..400).filter_map(|_| ctl.connect(Transport::Udp, peer.local_addr().unwrap()).ok().map(|x| x.0)).collect();
+            let end = Instant::now() + Duration::from_millis(2000);
+            while Instant::now() < end && connected.lock().unwrap().len() < eps.len() { std::thread::sleep(Duration::from_millis(5)); }
+            stop.store(true, Ordering::SeqCst);
+            let _ = pump.join();
+            let got = connected.lock().unwrap().clone();
+            let missing = eps.iter().filter(|e| !got.contains(e)).count();
+            let pending = eps.iter().filter(|e| ctl.is_ready(e.resource_id()) == Some(false)).count();
+            if missing > 0 || got.len() != eps.len() { out.violation(&format!("[C03] {} Udp connect() calls from one thread while another thread was polling: {} of them never got their Connected event ({} still answer is_ready() = Some(false) 2 s later), {} Connected events in total", eps.len(), missing, pending, got.len())); }
+            out.count("life_connects_vs_busy_poller");
+            out.case(&format!("life connects-vs-poller rep {}", rep), &format!("{}", missing));
+            for e in &eps { ctl.remove(e.resource_id()); }
         }
         // 5c. slow but correct WebSocket handshakes: the upgrade request / the 101 response arrive in
         //     two TCP segments with the node running in between
@@ -1769,6 +1974,59 @@ pub fn run_life(a: &Args) {
             out.case(&format!("life udp rep {}", rep), &format!("{}", nconn));
             if node.shutdown() { out.violation("[C17] Udp event processing panicked"); }
         }
+    }
+    // a listener is removed while a connection it accepted stays alive: the listening socket is released
+    for t in [Transport::Tcp, Transport::FramedTcp] {
+        mark_scenario(&out, &format!("net_life {:?}: remove(listener) while a connection it accepted stays open", t));
+        let node = Net::new();
+        let (lid, addr) = node.ctl.listen(t, "127.0.0.1:0").unwrap();
+        let mut c = TcpStream::connect(addr).unwrap();
+        node.wait(3000, |ev| ev.iter().any(|e| matches!(e, Ev::Accepted(..))));
+        let fd_before = open_fds();
+        let removed = node.ctl.remove(lid);
+        std::thread::sleep(Duration::from_millis(50));
+        let fd_after = open_fds();
+        let refused = match TcpStream::connect_timeout(&addr, Duration::from_millis(500)) { Err(_) => true, Ok(s2) => { drop(s2); false } };
+        // the accepted connection itself keeps working
+        let mut w = vec![]; if t == Transport::FramedTcp { w.push(2u8); } w.extend(b"ok");
+        c.write_all(&w).unwrap();
+        let alive = node.wait(2000, |ev| ev.iter().any(|e| matches!(e, Ev::Message(_, d) if d == b"ok")));
+        if !removed || fd_after + 1 != fd_before || !refused || !alive {
+            out.violation(&format!("[C18,C04] {:?}: remove(listener) answered {} while a connection it had accepted was alive: descriptors {} -> {} (the listening socket must be closed), a new connect to its address was refused: {}, the accepted connection still delivers: {}", t, removed, fd_before, fd_after, refused, alive));
+        }
+        out.count("life_listener_removed_connection_alive");
+        out.case(&format!("life listener-removed-conn-alive {:?}", t), "ok");
+        drop(c);
+        if node.shutdown() { out.violation("[C17,C18] event processing panicked"); }
+    }
+    // K2: one peer streams valid data without pause; a second, quiet connection of the same node
+    for t in [Transport::FramedTcp] {
+        mark_scenario(&out, &format!("net_life {:?}: a peer streams tiny frames without pause for 1.3 s; 100 ms into it another peer sends one datagram to the same node", t));
+        let node = Net::new();
+        let (_l, addr) = node.ctl.listen(t, "127.0.0.1:0").unwrap();
+        let (ul, uaddr) = node.ctl.listen(Transport::Udp, "127.0.0.1:0").unwrap();
+        let stop = Arc::new(AtomicBool::new(false));
+        // the application spends 20 us on each message; the streaming peer has a small send buffer, so
+        // that what is in flight when it stops is drained within a second or two
+        FILLER_SPIN_US.store(20, Ordering::SeqCst);
+        let streamer = { let stop = stop.clone(); std::thread::spawn(move || { if let Ok(mut c) = TcpStream::connect(addr) { let _ = socket2::SockRef::from(&c).set_send_buffer_size(16 * 1024); let _ = c.set_write_timeout(Some(Duration::from_millis(200))); let chunk: Vec<u8> = (0..2048).flat_map(|_| [1u8, 7u8]).collect(); while !stop.load(Ordering::SeqCst) { let _ = c.write_all(&chunk); } } }) };
+        std::thread::sleep(Duration::from_millis(100));
+        let canary = UdpSocket::bind("127.0.0.1:0").unwrap();
+        canary.send_to(b"still there?", uaddr).unwrap();
+        let t0 = Instant::now();
+        let served = loop { if !node.messages_of(ul).is_empty() { break true; } if t0.elapsed() > Duration::from_millis(1200) { break false; } std::thread::sleep(Duration::from_millis(2)); };
+        stop.store(true, Ordering::SeqCst);
+        let _ = streamer.join();
+        // once the stream ends the node recovers: the datagram arrives
+        let recovered = node.wait(10_000, |_| !node.messages_of(ul).is_empty());
+        FILLER_SPIN_US.store(0, Ordering::SeqCst);
+        if !served {
+            out.violation(&format!("[C17] K2 {:?}: while one peer streamed valid frames without pause (the application spends 20 us per message), a datagram of another peer to the same node was not delivered for 1.2 s (delivered after the stream ended: {}): the receive() call of the streaming connection does not return as long as its socket never runs empty, and it runs on the node's only network thread", t, recovered));
+        }
+        if !recovered { out.violation(&format!("[C17] {:?}: after a peer stopped streaming, a datagram of another peer that had arrived meanwhile was still not delivered 10 s later", t)); }
+        out.count("life_streaming_peer_vs_quiet_peer");
+        out.case(&format!("life streaming-peer {:?}", t), &format!("{} {}", served, recovered));
+        node.shutdown();
     }
     // a Ws server that sends a close frame and keeps its TCP connection open (the node is the client)
     ws_server_speaks_first_threaded(&mut out, if a.thorough { 30 } else { 6 });
@@ -1973,6 +2231,25 @@ pub fn run_sync(a: &Args) {
         out.count("sync_very_slow_peer");
         out.case("sync veryslow ws", &format!("{}", r.is_ok()));
         if node.shutdown() { out.violation("[C17,C03] event processing panicked"); }
+    }
+    // Udp with a processor that starts polling 300 ms late: Ok means usable
+    {
+        mark_scenario(&out, "net_sync Udp: connect_sync while the processor thread starts polling only 300 ms later");
+        let (ctl, mut processor) = network::split();
+        let ctl = Arc::new(ctl);
+        let peer = UdpSocket::bind("127.0.0.1:0").unwrap();
+        let stop = Arc::new(AtomicBool::new(false));
+        let pump = { let stop = stop.clone(); std::thread::spawn(move || { std::thread::sleep(Duration::from_millis(300)); while !stop.load(Ordering::SeqCst) { processor.process_poll_event(Some(Duration::from_millis(5)), |_| ()); } }) };
+        let t0 = Instant::now();
+        let r = ctl.connect_sync(Transport::Udp, peer.local_addr().unwrap());
+        match r {
+            Ok((ep, _)) => { let st = ctl.send(ep, b"first"); if st != SendStatus::Sent || ctl.is_ready(ep.resource_id()) != Some(true) { out.violation(&format!("[C03] Udp: connect_sync answered Ok after {:?} (the processor starts polling after 300 ms) but send() on the returned endpoint answers {:?}: Ok means immediately usable", t0.elapsed(), st)); } }
+            Err(e) => out.violation(&format!("[C03] Udp: connect_sync failed: {:?}", e.kind())),
+        }
+        stop.store(true, Ordering::SeqCst);
+        let _ = pump.join();
+        out.count("sync_udp_late_processor");
+        out.case("sync udp late processor", "ok");
     }
     // Udp: always Ok, ready, exactly one Connected(true)
     for rep in 0..reps.min(6) {
